@@ -669,6 +669,20 @@ func main() {
 				if v, ok := sc.Lookup(n).(*types.Var); ok && v.Exported() {
 					dump.DepVars[imp.PkgPath+"."+n] = regType(v.Type())
 				}
+				if c, ok := sc.Lookup(n).(*types.Const); ok && c.Exported() {
+					var val any
+					switch c.Val().Kind() {
+					case constant.Bool:
+						val = constant.BoolVal(c.Val())
+					case constant.String:
+						val = constant.StringVal(c.Val())
+					case constant.Int:
+						val = c.Val().ExactString()
+					default:
+						continue
+					}
+					dump.Consts = append(dump.Consts, ConstInfo{Name: imp.PkgPath + "." + n, Type: regType(c.Type()), V: val})
+				}
 			}
 		}
 	}
